@@ -22,6 +22,7 @@ import vthreads as vt  # noqa: E402
 TRACE = {'clock.py': None, 'machine.py': {'run', 'stop', '_wait'},
          'script_job.py': {'execute', 'request_stop'}}
 TRACE_JC = dict(TRACE, **{'job_control.py': None})
+TRACE_WEB = dict(TRACE_JC, **{'web_app.py': {'stop_all'}})
 POP = [{"label": "A", "group": "G", "location": "L", "kind": "plain",
         "color": [0, 0, 0, 3500], "power": 0}]
 DAY0 = 1036800.0
@@ -496,6 +497,18 @@ def judge(sc, res):
                 bad.append(('commands-after-stop', '{} device commands after the stop request had '
                             'been carried out (at most {} allowed: the instruction in progress)'
                             .format(len(after), allowed)))
+        # from the moment the stop STARTS to take effect (the requester's first write to one of
+        # the run flags) the job may finish the instruction in progress, nothing more — also
+        # when the requester is held up in the middle of the stop
+        effect = [f for f in res.flags if f[1] == 'R' and not f[3]
+                  and f[2] in ('_keep_running', '_keep_going')]
+        if effect and not rearmed:
+            during = [c for c in a_cmds if c[0] >= effect[0][0]]
+            if len(during) > 1:
+                bad.append(('commands-while-stop-in-progress',
+                            '{} device commands after the stop had begun to take effect ({} := '
+                            'False by the requester); at most the instruction in progress is '
+                            'allowed'.format(len(during), effect[0][2])))
         # promptly: a delay or time-of-day wait in progress is given up, not sat out — the job
         # thread ends within one tick of the stop having been carried out
         hit_a = any(f[1] == 'R' and f[2] == '_keep_running' and f[4] == id(res.job_a._machine)
@@ -562,7 +575,7 @@ def main():
     injection.bind(clock_mod.Clock).to(i_lib.Clock)
     install_flag_watch(Machine, clock_mod.Clock)
     mods = (clock_mod, jc_mod, settings_mod, ScriptJob, WebApp, net)
-    stats = {'runs': 0, 'systematic': 0, 'split': 0, 'random': 0, 'steps': 0, 'by_shape': {},
+    stats = {'runs': 0, 'systematic': 0, 'split': 0, 'split-stop-all': 0, 'random': 0, 'steps': 0, 'by_shape': {},
              'by_stop': {}, 'outcomes': {}, 'stopped_in_wait': 0, 'stopped_running': 0,
              'stopped_after_end': 0}
 
@@ -635,6 +648,19 @@ def main():
             for burst, gap in (((3, 2), (3, 9), (2, 5)) if not chk.thorough else ((3, 2), (3, 9), (2, 5), (4, 4))):
                 pol = vt.Inject2(vt.RunToBlock(max_run=150), 'R', [(i, burst), (i + burst + gap, None)])
                 do(Scenario(shape, 'request_stop' if (i // 3) % 2 else 'stop_current', pol), 'split')
+
+    # ---- stop-all split at every one of its own lines (and every line of the controller calls it
+    # makes): the other threads run until they block, then the requester finishes
+    for shape in SHAPES:
+        n = min(base_len[shape], 320)
+        points = sorted({0, 1, n // 5, n // 3, n // 2, (2 * n) // 3, n - 2} if not chk.thorough
+                        else set(range(0, n, 4)))
+        for i in points:
+            if i < 0:
+                continue
+            for burst in range(1, 30):
+                pol = vt.Inject2(vt.RunToBlock(max_run=150), 'R', [(i, burst), (i + burst + 200, None)])
+                do(Scenario(shape, 'stop_all', pol, trace=TRACE_WEB), 'split-stop-all')
 
     # ---- random schedules (job_control.py traced as well)
     n_rand = 400 if not chk.thorough else 8000
